@@ -134,8 +134,9 @@ func (o MOp) String() string {
 type MTxn struct {
 	Thread  int
 	Ops     []MOp
-	Failed  map[uint32]bool // inserts whose callback returned an error
-	applied map[uint32]bool // blocks already applied to the model
+	Failed  map[uint32]bool     // inserts whose callback returned an error
+	applied map[uint32]bool     // blocks already applied to the model
+	changes map[uint32][]Change // committed changes per block (trigger and stream oracles)
 }
 
 func (t *MTxn) add(op MOp) { t.Ops = append(t.Ops, op) }
@@ -178,6 +179,12 @@ func (m *Model) ApplyBlock(t *MTxn, block uint32) []Change {
 		return nil
 	}
 	t.applied[block] = true
+	return m.applyBlockRaw(t, block)
+}
+
+// applyBlockRaw applies a block of a transaction regardless of whether it was applied to
+// another model before (used to rebuild per-block prefixes for the snapshot oracle).
+func (m *Model) applyBlockRaw(t *MTxn, block uint32) []Change {
 	var changes []Change
 	deleted := map[uint32]bool{}
 	var deletedOrder []uint32
